@@ -34,6 +34,16 @@ Section Apps.
   | HostSwitch (table : list (P * app))        (* Hosts((pattern, app), ...) *)
   | StaticLeaf (k : C07.Model.kind) (c : scfg) (e : senv).   (* Files(directory, ...) / Pages(directory, ...) on a file system *)
 
+  (* does the tree contain Files / Pages? *)
+  Fixpoint has_static (a : app) : bool :=
+    match a with
+    | Leaf _ => false
+    | Route routes => existsb (fun e => has_static (snd e)) routes
+    | Mount routes => existsb (fun e => has_static (snd e)) routes
+    | HostSwitch table => existsb (fun e => has_static (snd e)) table
+    | StaticLeaf _ _ _ => true
+    end.
+
   (* the table of a dispatcher with entry k's application replaced by the name k *)
   Fixpoint index_from {K A B : Type} (name : nat -> B) (k : nat) (l : list (K * A)) : list (K * B) :=
     match l with
